@@ -1,4 +1,5 @@
 """C09 ZBDD set-family operations: wiring"""
+import ecache
 import ereduce
 import eunits
 import ewrap
@@ -19,4 +20,9 @@ def run(ctx):
     ctx.floor("E-UNITS", "function bodies analysed", nfn, 100)
     n = ereduce.run(ctx, F, kinds=("zbdd",))
     ctx.floor("E-TABLE.reduce", "abstract situations of the ZBDD reduce functions", n, 40)
+    ctx.explain("E-CACHE: in this kind's algorithm functions the apply-cache key of every insertion equals the key "
+                "of the lookup, the memoised value is the returned value, hit and miss paths agree, tags are disjoint.")
+    n = ecache.run(ctx, F, crates=("oxidd_rules_zbdd::",))
+    ctx.floor("E-CACHE", "cache-using algorithm functions", n, 5)
+    ecache.check_hit_equals_miss(ctx, F, crates=("oxidd_rules_zbdd::",))
     ctx.not_decided = "the level-comparison recursion, consistency after add_vars"
